@@ -9,7 +9,7 @@ ITEM_CAP = {"quick": 90, "thorough": 300}
 FUNCS = ["qlasskit.qlassfun.qlassf", "qlasskit.compiler.internalcompiler.InternalCompiler.compile (+compile_expr/_and/_or/_not/_xor/_symbol)",
          "qlasskit.compiler.expqmap.ExpQMap", "qlasskit.qcircuit.qcircuitenhanced.QCircuitEnhanced.{uncompute,uncompute_all,remove_identities,get_free_ancilla,map_qubit}",
          "qlasskit.qlassfun.QlassF.output_qubits"]
-BOUNDS = {"quick": "programs: fixed core + 300 seed-selected members of the universe; <=16 input bits; configs {default,fast}x{uncompute on,off}; every input basis state symbolic",
+BOUNDS = {"quick": "programs: fixed core (control-flow, names, alias, stale, self-if, generated prog2 slices) + 2600 seed-selected items of the universe; a fifth of the items with a compile history; <=16 input bits; configs {default,fast}x{uncompute on,off}; every input basis state symbolic",
           "thorough": "the whole universe (bool families, unit ops widths 2..4, control-flow family, repo test programs <=16 input bits); same configs"}
 OUTSIDE = "program text is enumerated, not symbolic; compilers other than 'internal'; hybrid Q.* gates; programs whose compile raises are counted, not judged"
 ASSUMPTIONS = ["gate semantics table of engine A (X, C^nX, SWAP, nop) — validated each run against CNotSim and an independent bit simulator",
